@@ -51,6 +51,28 @@ DOCS = [
 
 
 @dataclass
+class EnvLeaf:
+    code: Optional[int] = field(default=None, metadata={"type": "Element"})
+
+
+@dataclass
+class EnvHolder:
+    """Fields whose dictionary form uses the ENVELOPES {qname, value, type} (derived element) and
+    {qname, text, tail, children, attributes} (generic element): xs:anyType, a wildcard, a compound field."""
+
+    v: Optional[object] = field(default=None, metadata={"type": "Element"})
+    w: List[object] = field(default_factory=list, metadata={"type": "Wildcard"})
+    c: List[object] = field(default_factory=list, metadata={"type": "Elements", "choices": ({"name": "ci", "type": int}, {"name": "cl", "type": EnvLeaf})})
+
+
+ENV_DOCS = [
+    {"v": {"qname": "v", "value": {"code": 1}, "type": "EnvLeaf"}, "w": [{"qname": "w", "value": 5, "type": None}, {"qname": "x", "text": "t", "tail": None, "children": [], "attributes": {}}],
+     "c": [{"qname": "ci", "value": 4, "type": None}, {"qname": "cl", "value": {"code": 2}, "type": None}]},
+    {"v": {"qname": "v", "value": 7, "type": None}, "c": [{"code": 3}, 6]},
+]
+
+
+@dataclass
 class WildOther:
     """A ##other wildcard next to a typed element: the memo of XmlVar.match_namespace hangs off metadata that the
     shared context caches (C19)."""
@@ -159,7 +181,14 @@ def _shape_model(name, hint, meta, default=None, factory=None, required=False):
     return dataclasses.make_dataclass(name, [("x", hint, field(**kw))], kw_only=required)
 
 
+class SAxes(_Enum):
+    """an enumeration of xs:list values (what the generator writes for a restriction of a list type)"""
+    P = (5, 6)
+    T = (5, 6, 7)
+
+
 SHAPE_MODELS = {
+    "enumTokens": _shape_model("KEnumTokens", Optional[SAxes], {"type": "Element"}),
     "int": _shape_model("KInt", Optional[int], {"type": "Element"}),
     "nillableInt": _shape_model("KNilInt", Optional[int], {"type": "Element", "nillable": True}),
     "requiredInt": _shape_model("KReqInt", int, {"type": "Element", "required": True}, required=True),
